@@ -848,6 +848,8 @@ st.pop("last", None)
 R.extra["pool"] = st
 for k in ("dispatches", "ranges", "empty_ranges", "single_elem_ranges", "one_range", "elementwise", "reversed", "threaded_dispatches", "concurrent_overlaps"):
     R.cls("pool_" + k, st[k])
+R.extra["n_entry_points"] = len(R.extra.get("entry_points", {}))
+R.extra["n_dispatched_entry_points"] = len(R.extra.get("dispatched_entry_points", []))
 R.extra["partitions_distinct"] = st["partitions_distinct"]
 R.extra["orders_distinct"] = st["orders_distinct"]
 R.scen_i = len(OWN) - 1
